@@ -144,3 +144,13 @@ Inductive balanced : bytes -> Prop :=
 | bal_char c s : c <> 40 -> c <> 41 -> c <> 91 -> c <> 93 -> balanced s -> balanced (c :: s)
 | bal_paren a b : balanced a -> balanced b -> balanced (40 :: a ++ 41 :: b)
 | bal_brack a b : balanced a -> balanced b -> balanced (91 :: a ++ 93 :: b).
+
+(* ---- the inside of a quoted string, CSS Syntax 4.3.5 over raw bytes: anything but the quote, a
+   newline (CR, LF, FF) and backslash; or a backslash followed by anything ---- *)
+Fixpoint string_body (q : N) (b : bytes) : bool :=
+  match b with
+  | [] => true
+  | c :: r =>
+      if c =? 92 then match r with [] => false | _ :: r' => string_body q r' end
+      else negb ((c =? q) || (c =? 13) || (c =? 10) || (c =? 12)) && string_body q r
+  end.
